@@ -62,6 +62,14 @@ func (w *World) admitted(tx *ctypes.Trx) bool {
 	}
 	ig, err := ethcore.IntrinsicGas(data, nil, isZero20(tx.To), true, true)
 	if err != nil || tx.Gas < ig {
+		// A plain transfer to a contract is only checked against the native minimum before it reaches the EVM;
+		// go-ethereum then buys the gas, refuses the message for its intrinsic gas and keeps the bought gas out of
+		// the block's gas pool. The pool is a block resource no property talks about, but it decides whether a later
+		// message that asks for (almost) the whole block limit still fits: mirror it.
+		if err == nil && tx.Type == ctypes.TRX_TRANSFER && w.EVM != nil && w.EVM.gp != nil {
+			_ = w.EVM.gp.SubGas(tx.Gas)
+			w.Feat["evm_pool_gas_kept_by_refused_transfer"]++
+		}
 		return false
 	}
 	return true
